@@ -416,6 +416,16 @@ func (c13) Run(c *fw.Case) {
 		calls = append(first, calls...)
 	}
 
+	if c.Idx%3 == 2 {
+		// in the last third every goroutine starts with a call that FAILS (each for another reason): what a failing call
+		// releases, unlocks or gives back on its way out must not be released twice or left for the calls that follow
+		first := make([]c13call, 0, k+len(calls))
+		for g := 0; g < k; g++ {
+			first = append(first, c13call{"W4-failing-call", c13Failing(g)})
+		}
+		calls = append(first, calls...)
+	}
+
 	if c.Idx%3 == 1 {
 		// in another third EVERY goroutine starts by resolving the shared tree with the SAME options value that carries no Loader
 		// (the remote reference then fails to load): k simultaneous calls that may only read their options
@@ -530,4 +540,27 @@ func (c13) Finalize(a *fw.Agg, t fw.Tier) {
 	}
 	a.Extra["race_report_blocks_total"] = a.RaceRaw
 	a.Extra["race_report_blocks_in_library_distinct"] = len(a.RaceBlocks)
+}
+
+// c13Failing returns one of the calls that end in an error (the outcome string says whether it did).
+func c13Failing(g int) func() string {
+	docs := []struct {
+		text string
+		opts *jsonschema.ResolveOptions
+	}{
+		{`{"$dynamicAnchor":"n","properties":{"a":{"$dynamicRef":"#n","default":1}}}`, &jsonschema.ResolveOptions{ValidateDefaults: true}}, // not supported with defaults
+		{`{"properties":{"a":{"type":"integer","default":"x"}}}`, &jsonschema.ResolveOptions{ValidateDefaults: true}},                      // a default its schema rejects
+		{`{"$ref":"http://nowhere.example/x.json"}`, nil},                                                                                  // no Loader
+		{`{"properties":{"a":{"pattern":"("}}}`, nil},                                                                                      // bad regular expression
+		{`{"$ref":"#/$defs/missing"}`, &jsonschema.ResolveOptions{ValidateDefaults: true}},                                                 // dangling pointer
+	}
+	d := docs[g%len(docs)]
+	return func() string {
+		var s jsonschema.Schema
+		if err := json.Unmarshal([]byte(d.text), &s); err != nil {
+			return "unmarshal-error"
+		}
+		_, err := s.Resolve(d.opts)
+		return fmt.Sprint(err != nil)
+	}
 }
